@@ -465,6 +465,11 @@ impl Generator {
     pub(super) fn emit_opcode(&mut self, opcode: OpcodeKind) {
         self.output.push(opcode.as_u8());
         self.process_stack_ops(opcode, None);
+        #[cfg(feature = "verif-hooks")]
+        crate::verif::emit(|| crate::verif::Event::AfterEmit {
+            opcode: opcode.as_u8(),
+            snap: crate::verif::snap(self),
+        });
     }
 
     /// emit the PROTO opcode if appropriate for the protocol version.
